@@ -1140,9 +1140,16 @@ def regenerate(ctx):
         from extract import padslices
     except ImportError:
         return []
-    changed = padslices.regenerate()
-    return [('extract(_padding_slices_inner/_outer -> Gen/PadSlices.lean)', True,
-             'regenerated' if changed else 'unchanged')]
+    changed, info = padslices.regenerate()
+    ctx.extra['padslices_source'] = info
+    src = 'outer source={} inner source={}'.format(info['outer'], info['inner'])
+    if 'live' in (info['outer'], info['inner']):
+        ctx.notes.append('Gen/PadSlices.lean: slice table obtained from the LIVE function, not '
+                         'from the AST ({}); grids: {}'.format(
+                             info.get('inner_why') or info.get('outer_why'), info.get('grids')))
+    return [('extract(_padding_slices_inner/_outer, guards of _apply_padding -> '
+             'Gen/PadSlices.lean)', True,
+             ('regenerated' if changed else 'unchanged') + '; ' + src)]
 
 
 def run(ctx):
